@@ -22,6 +22,13 @@ func checkC03(c *Check) {
 	c.Assume("A1: go-smtp (foxcpp fork pinned in go.mod) refuses DATA/BDAT without an accepted RCPT, calls Reset after every DATA/BDAT completion, on RSET and on STARTTLS, Logout once per connection, and does not refuse a nested MAIL")
 	c03Assumption(c)
 
+	c.Rule("L1", "session lock: every mutex the package's functions take is released on every path to a return, and nothing unlocks a mutex it does not hold (immediate or deferred; function literals separately)", 5)
+	lockBalance(c, "L1", []string{smtpEndpRel}, nil)
+	c.Rule("L2", "the session's transaction state (open delivery, message metadata, sender, deferred error) is only touched while the session's message lock is held, by the method itself or by every caller of an unexported helper", 8)
+	locksetRule(c, "L2", smtpEndpRel, "Session", "msgLock", []string{"delivery", "msgMeta", "mailFrom", "deliveryErr"}, map[string]string{
+		"SetStatus": "callback: the per-recipient status collector is only built as the argument of BodyNonAtomic inside LMTPData's critical section",
+	})
+
 	sess := c.need("R1", smtpEndpRel, "Session", "Data")
 	c.Rule("R1", "typestate of the session's delivery over every library-callable Session method and entry state: never overwritten or dropped while open, never used or closed when not open, never left closed-but-set", 6)
 	c.Rule("immut", "the sender recorded for releasing the permit is not overwritten while a delivery is open", 1)
@@ -511,7 +518,23 @@ func c03CommitOrder(c *Check) {
 			pts := r.Calls(st.pred)
 			if len(pts) == 0 {
 				if st.name == "Body" && m == "LMTPData" {
-					continue // per-recipient path reports through the status collector
+					// per-recipient path reports through the status collector: no error to look at, but the body must
+					// have been handed to the delivery before it is committed
+					isBNA := func(pt Pt) bool {
+						for _, call := range callsAt(pt.Node()) {
+							recv := ast.Unparen(callRecv(call))
+							if ta, ok := recv.(*ast.TypeAssertExpr); ok {
+								recv = ta.X
+							}
+							if methodName(call) == "BodyNonAtomic" && recv != nil && isField(info, recv, "Session", "delivery") {
+								return true
+							}
+						}
+						return false
+					}
+					okDom, w := r.MustPass(r.Entry(), true, isCommit, isBNA)
+					c.Hold("R3", "Session."+m+":BodyNonAtomic", r.FI.Decl.Pos(), okDom, "Commit is reachable without the body having been handed to the delivery: "+w)
+					continue
 				}
 				c.Hold("R3", "Session."+m+":"+st.name, r.FI.Decl.Pos(), false, "stage "+st.name+" is missing")
 				continue
